@@ -3,6 +3,36 @@
 ZSTD = "zstd crate: decompress(compress(x)) = x and context-history independence (exercised, not proved)"
 
 PROPS = {
+    "C04": {
+        "level": "proof",
+        "assumptions": [
+            "Model/Pipeline.lean mirrors the queue operations of ragc-cli create_archive + StreamingQueueCompressor::{push,drain,"
+            "sync_and_flush,finalize} (priority arithmetic included), ContigTask::cmp, the guards of MemoryBoundedQueue at completed-call "
+            "granularity and worker_thread's loop with its four barrier waits; tied to the code by replaying the event log of real runs "
+            "(thread counts 2..16, tight and unbounded capacities, perturbed schedules) through the model's transition function and by "
+            "comparing the push sequence with the model's producer program",
+            "that the archive bytes are a function of the batches as SETS (worker 0 sorts what it classifies; pack contents do not depend "
+            "on arrival order inside a batch) is exercised by the byte-identity runs (sha256 over thread counts, capacities, perturbed "
+            "schedules), not proved",
+            "PrioSep is proved for the programs generated in multi-file and single-file mode; the RAGC_SYNC_PER_SAMPLE debugging path and "
+            "library users that call push/sync_and_flush in other patterns are outside",
+        ],
+        "trusted": ["event hooks H2/H3 in /repo (cfg(ragc_verif)): queue events are emitted under the queue mutex, pipeline events by the thread that performs the step"],
+    },
+    "C05": {
+        "level": "proof",
+        "assumptions": [
+            "Model/Pipeline.lean is a guarded-action transition system: the producer program, the bounded priority queue at "
+            "completed-call granularity (its condvar protocol is C06), N workers with the four barrier waits; tied to the code by "
+            "replaying the event log of every harness run through step? (trace inclusion) and by comparing the priority arithmetic push "
+            "by push",
+            "termination of the protocol, not of the threads: OS scheduling fairness, condvar wake-ups (C06), worker panics (a worker "
+            "that dies inside a round leaves the others at the barrier) and the termination of the sequential code between two events "
+            "(segmentation, classification, compression, finalize's flush) are outside",
+            "drain() and the wait inside sync_and_flush() are polling loops; they are modelled as one wait-until-empty step",
+        ],
+        "trusted": ["event hooks H2/H3 in /repo (cfg(ragc_verif)): queue events are emitted under the queue mutex, pipeline events by the thread that performs the step"],
+    },
     "C12": {
         "level": "proof",
         "assumptions": [
